@@ -352,13 +352,68 @@ class ConcatAttributesPending(Contract):
 CONTRACTS = CONTRACTS + [ConcatAttributesPending]
 
 
+class ConcatUpdateDispatch(Contract):
+    """Concatenator.update_attributes is the single door through which an edit of a stored
+    concatenated entity reaches the group: 'attributes' goes to the attribute record, every other
+    label is an array field and goes to update_array_attribute -- for a drillhole under its own
+    label (surveys, trace, property_groups, ...), for data under the data's name."""
+    target = "geoh5py/shared/concatenation/concatenator.py::Concatenator.update_attributes"
+    props = ("C03", "C04")
+    lenient = True
+
+    LABELS = ("attributes", "surveys", "trace", "property_groups", "values", "depth_", "from-to")
+
+    def cases(self):
+        return [(kind, lab) for kind in ("hole", "data") for lab in self.LABELS if not (kind == "data" and lab in ("surveys", "trace", "property_groups"))]
+
+    def setup(self, ctx):
+        from contracts.concat import concatenator_class
+        from geoh5py.groups import PropertyGroup
+        from geoh5py.shared.concatenation.data import ConcatenatedData
+        from geoh5py.shared.concatenation.drillhole import ConcatenatedDrillhole
+
+        kind, lab = ctx.case
+        me = Opaque("self", cls=concatenator_class())
+        ent = Opaque("entity", cls=ConcatenatedDrillhole if kind == "hole" else ConcatenatedData)
+        ent.attrs["name"] = "Au"
+        ent.attrs["uid"] = Opaque("uid")
+        pg = Opaque("property-group", cls=PropertyGroup)
+        pg.attrs["uid"] = Opaque("pg-uid")
+        ent.attrs["property_groups"] = PList([pg]) if kind == "hole" else None
+        me.attrs["property_group_ids"] = None
+        for name in ("update_concatenated_attributes", "update_array_attribute", "add_save_concatenated"):
+            me.attrs[name] = Opaque(name)
+            me.attrs[name].maybe_method = (lambda I, a, kw, _n=name: I.event(_n, args=list(a), kw=dict(kw)))
+        ctx.env.update(ent=ent, pg=pg)
+        return [me, ent, lab], {}
+
+    def post(self, ctx, result):
+        e = ctx.env
+        kind, lab = ctx.case
+        ev = ctx.path.events
+        rec = [p for k, p in ev if k == "update_concatenated_attributes"]
+        arr = [p for k, p in ev if k == "update_array_attribute"]
+        if lab == "attributes":
+            ctx.oblige("an-attribute-edit-goes-to-the-attribute-record", len(rec) == 1 and rec[0]["args"][0] is e["ent"] and not arr)
+            return
+        want = "Au" if kind == "data" else lab
+        ctx.oblige(f"an-array-field-edit-is-written[{kind}:{lab}]", len(arr) == 1 and arr[0]["args"][0] is e["ent"] and (arr[0]["args"][1:] + list(arr[0]["kw"].values()))[:1] == [want],
+                   note=f"update_attributes({kind}, {lab!r}) did not call update_array_attribute(entity, {want!r})")
+        if lab == "property_groups":
+            saved = [p for k, p in ev if k == "add_save_concatenated"]
+            ctx.oblige("each-property-group-is-registered-with-the-drillhole-group", len(saved) == 1 and saved[0]["args"][0] is e["pg"])
+
+
+CONTRACTS = CONTRACTS + [ConcatUpdateDispatch]
+
+
 class ObjectRemoveChildren(Contract):
     """ObjectBase.remove_children: every listed entity the object holds leaves its child list and,
     when it is data, every one of the object's property groups -- also when the entity's own parent
     field already points elsewhere (the re-parenting setter stores the new parent first); entities
     the object does not hold are skipped."""
     target = "geoh5py/objects/object_base.py::ObjectBase.remove_children"
-    props = ("C02", "C05")
+    props = ("C02", "C05", "C10")
     lenient = True
 
     def cases(self):
@@ -392,6 +447,11 @@ class ObjectRemoveChildren(Contract):
     def post(self, ctx, result):
         e = ctx.env
         scrubbed = [p["data"] for k, p in ctx.path.events if k == "scrub"]
+        unl = [p for k, p in ctx.path.events if k == "unlink"]
+        # the workspace owns the file side of a removal and its write guard: whatever the in-memory list
+        # says (it may lag behind the file), the request is forwarded whole
+        ctx.oblige("the-whole-request-reaches-the-workspace", len(unl) == 1 and unl[0]["parent"] is e["me"] and any(x is e["child"] for x in getattr(unl[0]["children"], "items", []) or []),
+                   note="a requested removal was not forwarded to Workspace.remove_children (no file-side removal, no read-only refusal)")
         if ctx.case == "not-held":
             ctx.oblige("an-entity-the-object-does-not-hold-is-skipped", not scrubbed and e["kept"].items == [e["sibling"]])
             return
@@ -402,3 +462,44 @@ class ObjectRemoveChildren(Contract):
 
 
 CONTRACTS = CONTRACTS + [ObjectRemoveChildren]
+
+
+class ContainerRemoveChildren(Contract):
+    """EntityContainer.remove_children (groups): the listed children leave the child list, the others
+    stay, and the whole request is forwarded to the workspace (file-side removal and write guard)."""
+    target = "geoh5py/shared/entity_container.py::EntityContainer.remove_children"
+    props = ("C05", "C10")
+    lenient = True
+
+    def cases(self):
+        return ["held", "not-held", "single-entity-not-in-a-list"]
+
+    def setup(self, ctx):
+        from geoh5py.groups import ContainerGroup
+        from geoh5py.objects import Points
+
+        me = Opaque("self", cls=ContainerGroup)
+        child = Opaque("child", cls=Points)
+        sibling = Opaque("sibling", cls=Points)
+        for o in (me, child, sibling):
+            o.distinct = True
+        me.attrs["_children"] = PList([sibling] if ctx.case == "not-held" else [sibling, child])
+        ws = Opaque("workspace")
+        wrc = Opaque("workspace.remove_children")
+        wrc.maybe_method = lambda I, a, kw: I.event("unlink", parent=a[0], children=a[1])
+        ws.attrs["remove_children"] = wrc
+        me.attrs["workspace"] = ws
+        ctx.env.update(me=me, child=child, sibling=sibling)
+        return [me, child if ctx.case.startswith("single") else PList([child])], {}
+
+    def post(self, ctx, result):
+        e = ctx.env
+        kept = e["me"].attrs["_children"]
+        items = list(getattr(kept, "items", kept))
+        ctx.oblige("the-listed-child-leaves-the-others-stay", len(items) == 1 and items[0] is e["sibling"])
+        unl = [p for k, p in ctx.path.events if k == "unlink"]
+        ctx.oblige("the-whole-request-reaches-the-workspace", len(unl) == 1 and unl[0]["parent"] is e["me"] and any(x is e["child"] for x in getattr(unl[0]["children"], "items", []) or []),
+                   note="a requested removal was not forwarded to Workspace.remove_children (no file-side removal, no read-only refusal)")
+
+
+CONTRACTS = CONTRACTS + [ContainerRemoveChildren]
